@@ -889,8 +889,12 @@ func c13Gen(c *Ctx, idx int, specs []*c13Spec) *c13History {
 		h.kind = "random-load"
 	}
 	allP, allG, allR := spec.pRules(), spec.gRules(), spec.reserved()
-	hotP := c13Sample(c, allP, 4)
-	hotG := c13Sample(c, allG, 3)
+	nHotP, nHotG := 4, 3
+	if rng.Intn(4) == 0 { // focused history: nearly every call is about the same one or two rules
+		nHotP, nHotG = 1+rng.Intn(2), 1
+	}
+	hotP := c13Sample(c, allP, nHotP)
+	hotG := c13Sample(c, allG, nHotG)
 	// make the hot grouping rules relevant: let a hot p rule belong to a role
 	if rng.Intn(2) == 0 {
 		g := hotG[0]
@@ -901,7 +905,6 @@ func c13Gen(c *Ctx, idx int, specs []*c13Spec) *c13History {
 		}
 		hotP[0] = r
 	}
-	type tagged struct{ r []string }
 	var init [][]string
 	for _, r := range hotP {
 		if rng.Intn(2) == 0 {
@@ -935,7 +938,7 @@ func c13Gen(c *Ctx, idx int, specs []*c13Spec) *c13History {
 
 	if load {
 		// the store drifted behind the enforcer's back: LoadPolicy really changes the state
-		var d [][]string
+		d := [][]string{}
 		for _, r := range h.init {
 			if rng.Intn(3) != 0 {
 				d = append(d, r)
@@ -944,17 +947,16 @@ func c13Gen(c *Ctx, idx int, specs []*c13Spec) *c13History {
 		for _, r := range hotP {
 			k := strings.Join(append([]string{"p"}, r...), "\x00")
 			if !seen[k] && rng.Intn(2) == 0 {
+				seen[k] = true // the store holds every rule once
 				d = append(d, append([]string{"p"}, r...))
 			}
 		}
 		for _, r := range hotG {
 			k := strings.Join(append([]string{"g"}, r...), "\x00")
 			if !seen[k] && rng.Intn(2) == 0 {
+				seen[k] = true
 				d = append(d, append([]string{"g"}, r...))
 			}
-		}
-		if d == nil {
-			d = [][]string{}
 		}
 		h.drift = d
 	}
@@ -985,7 +987,7 @@ func c13Gen(c *Ctx, idx int, specs []*c13Spec) *c13History {
 	pickReq := func() []string {
 		r := c13Cp(pickP())
 		if rng.Intn(100) < 70 {
-			r[0] = c13Pick(c, [][]string{spec.subs})[rng.Intn(len(spec.subs))]
+			r[0] = spec.subs[rng.Intn(len(spec.subs))]
 		}
 		return r
 	}
@@ -1070,16 +1072,14 @@ func c13Gen(c *Ctx, idx int, specs []*c13Spec) *c13History {
 	return h
 }
 
-func c13HistoryInSync(h *c13History) bool { return true }
-
 // ---------- registration ----------
 
 func init() {
 	register("C13", func(c *Ctx) {
 		t0 := time.Now()
-		nRandom := 400
+		nRandom := 2500
 		if c.Thorough() {
-			nRandom = 20000
+			nRandom = 120000
 		}
 		c.Rule = "RUNTIME EXPLORATION (not proof) of SyncedEnforcer linearizability on the real code. " +
 			"Random stream: fresh SyncedEnforcer + fresh in-memory auto-saving adapter with a random initial policy; 2-4 goroutines x 1-6 calls over " +
